@@ -86,3 +86,62 @@ func ghostTimerPrefix(kg uint16) []byte { return []byte{byte(kg >> 8), byte(kg),
 //@   modifies pq.allDataInCache, ds.SortedCache.byteSize, btree.BTreeG.set, btree.BTreeG.bytes
 //@   ensures pqInv(pq)
 //@   ensures result == !exists(func(k string) bool { return pqTimer(pq, k) })
+
+// ---- Barrier alignment (C02). A checkpoint collects the barriers of the
+// upstream source runners; senders that already delivered their barrier are
+// held back until it is complete. Ghost flag allBarriersReceivedClosed models
+// the channel that releases them: closed exactly when no barrier is missing.
+
+//@ type checkpoint
+//@   ghostfield allBarriersReceivedClosed bool
+
+//@ define ckptInv(c) := c.allBarriersReceivedClosed == (len(c.srIDs) == 0)
+
+//@ func newCheckpoint
+//@   property C02
+//@   requires len(srIDs) >= 1
+//@   ensures fresh(result) && result.checkpointID == checkpointID && ckptInv(result) && !result.allBarriersReceivedClosed
+//@   ensures forall(func(k string) bool { return has(result.srIDs, k) == exists(0, len(srIDs), func(j int) bool { return srIDs[j] == k }) })
+
+//@ func checkpoint.registerBarrier
+//@   property C02
+//@   requires barrier != nil && ckptInv(c) && len(c.srIDs) > 0
+//@   modifies c.srIDs, c.allBarriersReceivedClosed
+//@   ensures ckptInv(c)
+//@   ensures barrier.CheckpointId != c.checkpointID ==> result != nil && same(c.srIDs, old(c.srIDs)) && c.allBarriersReceivedClosed == old(c.allBarriersReceivedClosed)
+//@   ensures barrier.CheckpointId == c.checkpointID ==> result == nil &&
+//@           forall(func(k string) bool { return has(c.srIDs, k) == (has(old(c.srIDs), k) && k != senderID) })
+
+//@ func checkpoint.hasAllBarriers
+//@   property C02
+//@   modifies nothing
+//@   ensures result == (len(c.srIDs) == 0)
+
+// The alignment state is shared between the RPC goroutines and the event loop
+// under Operator.mu. Invariant: a retained checkpoint is still waiting for at
+// least one barrier (a completed one must not survive, or every later barrier
+// id is rejected and its senders stay blocked).
+//@ type Operator
+//@   guards mu: checkpoint
+//@   lockinv mu: self.checkpoint != nil ==> ckptInv(self.checkpoint) && len(self.checkpoint.srIDs) > 0
+
+// handleCheckpointBarrier: the DKV checkpoint is taken only when every upstream
+// delivered barrier N, after the pending batch was flushed, under the barrier's
+// id; the acknowledgement carries that id, this operator's id, the URI just
+// returned and this operator's key-group range.
+//@ func Operator.handleCheckpointBarrier
+//@   property C02
+//@   requires barrier != nil && o.sourceRunners != nil && len(o.sourceRunners.all) >= 1 && o.db != nil
+//@   requires 0 <= o.keyGroupRange.Start && o.keyGroupRange.Start <= o.keyGroupRange.End && o.keyGroupRange.End <= 65536
+//@   order Checkpoint after processEventBatch
+//@   order Checkpoint after registerBarrier
+//@   atcall Checkpoint: arg0 == barrier.CheckpointId && len(o.checkpoint.srIDs) == 0
+//@   atcall OperatorCheckpointComplete: arg1.CheckpointId == barrier.CheckpointId && arg1.OperatorId == o.id && arg1.DkvFileUri == cp.URI
+//@   atcall OperatorCheckpointComplete: int(arg1.KeyGroupRange.Start) == o.keyGroupRange.Start && int(arg1.KeyGroupRange.End) == o.keyGroupRange.End
+
+// HandleDeploy (re)initialises the operator for a new assembly: no alignment
+// state of the previous assembly survives.
+//@ func Operator.HandleDeploy
+//@   property C02 C15
+//@   requires req != nil
+//@   ensures result == nil ==> o.checkpoint == nil
